@@ -554,15 +554,19 @@ class SByteArray(SSeq):
     mode (z3 Array BV32->BV8 with concrete length) once a symbolic index is
     used."""
     kind = BARR
-    __slots__ = ('arr', 'n', '_items')
+    __slots__ = ('arr', 'n', '_items', 'fn', '_m')
 
     def __init__(self, items=None, arr=None, n=None):
         self.arr = arr
         self.n = n
+        self.fn = None      # function mode: z3 index term -> BV8 term
+        self._m = None      # symbolic-length mode: an MSeq holds the bytes
         self._items = list(items) if items is not None else None
 
     @property
     def items(self):
+        if self._m is not None:
+            raise Unsupported('elements of a symbolic-length bytearray')
         it = self._items
         if it is None:
             return [self._sel(z3.BitVecVal(k, W)) for k in range(self.n)]
@@ -594,9 +598,19 @@ class SByteArray(SSeq):
             self._items = [self._sel(z3.BitVecVal(k, W))
                            for k in range(self.n)]
             self.arr = None
+            self.fn = None
+
+    def _to_fn(self):
+        if self.fn is None:
+            self._to_arr()
+            arr = self.arr
+            self.fn = lambda ie, arr=arr: z3.Select(arr, ie)
 
     def _sel(self, ie):
-        e = z3.simplify(z3.Select(self.arr, ie))
+        if self.fn is not None:
+            e = z3.simplify(self.fn(ie))
+        else:
+            e = z3.simplify(z3.Select(self.arr, ie))
         if z3.is_bv_value(e):
             return e.as_long()
         return SInt(z3.ZeroExt(W - 8, e), 0, 255)
@@ -605,13 +619,26 @@ class SByteArray(SSeq):
         return self._items
 
     def __len__(self):
+        if self._m is not None:
+            return len(self._m)
         it = self._raw_items()
         return self.n if it is None else len(it)
 
+    def length(self):
+        if self._m is not None:
+            return self._m.length()
+        return len(self)
+
     def copy(self):
+        if self._m is not None:
+            r = SByteArray([])
+            r._m = MSeq(self._m.n, self._m.f)
+            return r
         it = self._raw_items()
         if it is None:
-            return SByteArray(arr=self.arr, n=self.n)
+            r = SByteArray(arr=self.arr, n=self.n)
+            r.fn = self.fn
+            return r
         return SByteArray(it)
 
     def _check_byte(self, v):
@@ -631,6 +658,8 @@ class SByteArray(SSeq):
         return int(v)
 
     def __getitem__(self, i):
+        if self._m is not None:
+            return self._m[i]
         if isinstance(i, SInt):
             n = len(self)
             if i.lo < -n or i.hi >= n:
@@ -654,7 +683,59 @@ class SByteArray(SSeq):
             return self._sel(z3.BitVecVal(i, W))
         return SSeq.__getitem__(self, i)
 
+    def _store(self, ie, ve):
+        if self.fn is not None:
+            old = self.fn
+            self.fn = lambda je, old=old: z3.If(je == ie, ve, old(je))
+        else:
+            self.arr = z3.Store(self.arr, ie, ve)
+
+    def _set_slice_sym(self, i, v):
+        """ba[a:b] = v with symbolic bounds or a symbolic-length value; only
+        the replacement of a slice by as many bytes is modelled (the length
+        of the array stays concrete)."""
+        if i.step not in (None, 1):
+            raise Unsupported('extended slice store with symbolic bounds')
+        n = len(self)
+
+        def clamp(x, default):
+            if x is None:
+                return default
+            x = Ite(x < 0, x + n, x)
+            x = Ite(x < 0, 0, x)
+            return Ite(x > n, n, x)
+        a = clamp(i.start, 0)
+        b = clamp(i.stop, n)
+        b = Ite(b < a, a, b)
+        if isinstance(v, MSeq):
+            m = v.n
+            g = v.f
+        else:
+            ve = [self._check_byte(x) for x in elems_of_iter(v)]
+            m = len(ve)
+            g = _listfun(ve)
+        if not (b - a == m):
+            # the array changes its size by a symbolic amount: from here on
+            # an MSeq (symbolic length) holds the bytes
+            self._to_fn()
+            fn = self.fn
+            self._m = MSeq(n, lambda ie, fn=fn: z3.ZeroExt(W - 8, fn(ie)))
+            self._m[i] = v
+            self._items, self.arr, self.fn = [], None, None
+            return
+        self._to_fn()
+        old = self.fn
+        ae, be = iexpr(a), iexpr(b)
+        self.fn = lambda ie, old=old: z3.If(
+            z3.And(ie >= ae, ie < be), z3.Extract(7, 0, g(ie - ae)), old(ie))
+
     def __setitem__(self, i, v):
+        if self._m is not None:
+            self._m[i] = v
+            return
+        if isinstance(i, slice) and (isinstance(v, MSeq) or isinstance(
+                i.start, SInt) or isinstance(i.stop, SInt)):
+            return self._set_slice_sym(i, v)
         if isinstance(i, slice):
             self._to_list()
             items = self._raw_items()
@@ -678,7 +759,7 @@ class SByteArray(SSeq):
             self._to_arr()
             ve = z3.BitVecVal(v, 8) if type(v) is int else z3.Extract(
                 7, 0, v.e)
-            self.arr = z3.Store(self.arr, iexpr(i), ve)
+            self._store(iexpr(i), ve)
             return
         i = _norm_index(i, len(self))
         if self._raw_items() is None:
@@ -689,7 +770,7 @@ class SByteArray(SSeq):
                 raise IndexError('bytearray index out of range')
             ve = z3.BitVecVal(v, 8) if type(v) is int else z3.Extract(
                 7, 0, v.e)
-            self.arr = z3.Store(self.arr, z3.BitVecVal(i, W), ve)
+            self._store(z3.BitVecVal(i, W), ve)
             return
         self._raw_items()[i] = v
 
@@ -735,6 +816,7 @@ class SByteArray(SSeq):
     def clear(self):
         self._items = []
         self.arr = None
+        self.fn = None
 
     def pop(self, i=-1):
         self._to_list()
@@ -781,6 +863,17 @@ def join(sep, parts):
     parts = list(parts)
     sk = kind_of(sep)
     se = elems_of(sep)
+    if any(isinstance(p, MSeq) for p in parts) and sk != STR:
+        res = MSeq(0, lambda ie: z3.BitVecVal(0, W))
+        for k, p in enumerate(parts):
+            if k and se:
+                res[res.n:res.n] = se
+            if not isinstance(p, MSeq) and kind_of(p) in (None, STR):
+                raise TypeError('sequence item %d: expected a bytes-like '
+                                'object, %s found' % (k, type(p).__name__))
+            res[res.n:res.n] = p
+        res.mutable = (sk == BARR)
+        return res
     out = []
     for k, p in enumerate(parts):
         if k and se:
